@@ -292,7 +292,7 @@ func (w *world) vestTx(r *vh.RNG, scn, target string, to common.Address, route s
 	}
 	d.Fee = w.stdFee()
 	d.Signer = signer.Addr
-	d.Class = "vest:" + routeClass(route, depth) + ":" + target
+	d.Class = "vest:" + route + ":" + target
 	d.Bz = w.encode(signer, msgs, d.Fee)
 	return d
 }
@@ -437,7 +437,7 @@ func (w *world) genScenario(r *vh.RNG) *scenario {
 			default:
 				sig = makeSig(r, a.Key, kind)
 			}
-			return []*txDesc{w.proofTx(s.name, "proof:"+kind+":"+routeClass(route, d), signer, sub, []proofItem{{Account: a.Addr, Sig: sig, Kind: kind}}, route, d, nil, r.Chance(1, 10))}
+			return []*txDesc{w.proofTx(s.name, "proof:"+kind+":"+route, signer, sub, []proofItem{{Account: a.Addr, Sig: sig, Kind: kind}}, route, d, nil, r.Chance(1, 10))}
 		}
 		s.steps[2] = func() []*txDesc { // whatever happened: a repeat (same string), a valid one, or the malleated twin
 			x := w.take(r)
